@@ -346,7 +346,7 @@ func TestC12(t *testing.T) {
 	e := LoadEnv("C12")
 	cf := NewCaseFile("C12", "From Cache Require Import Base Backend Spec Check.", "check_c12")
 	cf.Rule = "configs: CountSoftLimit in {0,5,10,40}, EvictFraction in {0 (=0.1),0.01,0.1,0.5,0.99,1}, strategy in {MostExpired,LRU,LFU}, " +
-		"EvictionNeeded on/off, HeapInUse/SysMem soft limits unset or set to 2^60 (never exceeded); 10..150 ops: writes over a pool of up to 3x the limit (TTL none/+1h/-1h/unlimited mix), reads at distinct " +
+		"EvictionNeeded on/off, HeapInUse/SysMem soft limits unset, set to 2^60 (never exceeded) or to 1 byte (always exceeded); 10..150 ops: writes over a pool of up to 3x the limit (TTL none/+1h/-1h/unlimited mix), reads at distinct " +
 		"fake instants (access history), cleanups bracketed by Walks; 3 backends; non-trivial = a cleanup that evicted at least one entry " +
 		"and kept at least one; distinct = distinct Gallina term"
 
@@ -361,9 +361,11 @@ func TestC12(t *testing.T) {
 				TTL: []int64{0, h, -1}[e.Rng.Intn(3)], Jitter: -1, Name: "c", Strategy: e.Rng.Intn(3),
 				CountLimit: limits[e.Rng.Intn(len(limits))], EvictFrac: fracs[e.Rng.Intn(len(fracs))],
 				EvictNeed: e.Rng.Intn(4) == 0, DelAfter: []int64{0, h}[e.Rng.Intn(2)],
-				// memory limits that are configured but can never be exceeded must not trigger eviction
-				HeapLimit: []uint64{0, 0, 1 << 60}[e.Rng.Intn(3)], SysLimit: []uint64{0, 0, 1 << 60}[e.Rng.Intn(3)],
+				// memory limits that are configured but can never be exceeded must not trigger eviction; a limit of one byte
+				// is always exceeded: every cycle has to evict EvictFraction (for the model: as if EvictionNeeded said so)
+				HeapLimit: []uint64{0, 0, 1 << 60, 1}[e.Rng.Intn(4)], SysLimit: []uint64{0, 0, 0, 1 << 60, 1}[e.Rng.Intn(5)],
 			}
+			memBreach := conf.HeapLimit == 1 || conf.SysLimit == 1
 			pool := 3*int(conf.CountLimit) + 4
 
 			if e.Rng.Intn(3) == 0 {
@@ -414,8 +416,8 @@ func TestC12(t *testing.T) {
 			}
 
 			fn, fd := ratOf(ef)
-			term := fmt.Sprintf("(%s, C12Case %s %s %s (%s))", fl, fn, fd, Bool(conf.EvictNeed), r.CoqCase(conf))
-			cf.Add(term, fmt.Sprintf("%s/L=%d/f=%v/s=%d/need=%v", fl, conf.CountLimit, conf.EvictFrac, conf.Strategy, conf.EvictNeed),
+			term := fmt.Sprintf("(%s, C12Case %s %s %s (%s))", fl, fn, fd, Bool(conf.EvictNeed || memBreach), r.CoqCase(conf))
+			cf.Add(term, fmt.Sprintf("%s/L=%d/f=%v/s=%d/need=%v/mem=%v", fl, conf.CountLimit, conf.EvictFrac, conf.Strategy, conf.EvictNeed, memBreach),
 				map[string]any{"flavour": fl, "conf": conf, "ops": r.Ops, "results": r.Results}, nontriv)
 		}
 	}
